@@ -9,7 +9,8 @@
    the empty string gives [""].  VT, FF, FS, GS, RS and NEL are ordinary characters.
    Strings are lists of N: UTF-16 code units on the JavaScript side (equal to code points for BMP text). *)
 From Coq Require Import List NArith Bool Lia.
-From NB Require Import Base.Json Base.PyStr.
+From NB Require Import Base.Json.
+From NB Require Import Base.PyStr.
 Import ListNotations.
 Local Open Scope N_scope.
 
